@@ -121,7 +121,7 @@ pub fn gtuple(typed: bool) -> BoxedStrategy<Tuple> {
         })
         .boxed();
     // now and then two components are *related*: the same text in two places, or one a prefix of the other
-    (t, 0u8..40)
+    (t, 0u8..48)
         .prop_map(|(mut t, rel)| {
             let no_slash = |s: &str| s.replace('/', "|");
             match rel {
@@ -158,6 +158,31 @@ pub fn gtuple(typed: bool) -> BoxedStrategy<Tuple> {
                 7 => {
                     if let Some(q) = t.quals.first().cloned() {
                         t.subpath = vec![no_slash(&q.1)].into_iter().filter(|s| !s.is_empty() && s != "." && s != "..").collect();
+                    }
+                },
+                // a component *built by joining* others: a subpath that repeats the whole package path and goes on
+                // (Go import paths), a namespace that ends in the name, a name that is the last subpath segment
+                8 | 9 => {
+                    let ok = |s: &String| !s.is_empty() && s != "." && s != "..";
+                    let mut sub: Vec<String> = t.ns.iter().cloned().filter(ok).collect();
+                    let n = no_slash(&t.name);
+                    if ok(&n) {
+                        sub.push(n);
+                    }
+                    if rel == 8 {
+                        sub.extend(t.subpath.iter().cloned());
+                    }
+                    t.subpath = sub;
+                },
+                10 => {
+                    let n = no_slash(&t.name);
+                    if !n.is_empty() {
+                        t.ns.push(n);
+                    }
+                },
+                11 => {
+                    if let Some(s) = t.subpath.last().cloned() {
+                        t.name = s;
                     }
                 },
                 _ => {},
